@@ -7,6 +7,7 @@
 package main
 
 import (
+	"bytes"
 	"crypto/sha256"
 	"encoding/hex"
 	"encoding/json"
@@ -17,6 +18,7 @@ import (
 	"runtime/debug"
 	"sort"
 	"strings"
+	"sync"
 	"syscall"
 	"time"
 
@@ -37,6 +39,29 @@ type implOut struct {
 	Key   []byte
 	Msg   string
 	Nanos int64
+	// round 3: state kept across calls
+	W          keystorev3.WalletFile // the returned wallet, retained and asked for its key again later
+	ErrWithKey []byte                // a key held by the wallet that was returned together with an error
+	Aliased    bool                  // the wallet's key changed when the caller overwrote its own input buffers
+}
+
+// keyOf asks a wallet for its key; a nil pointer inside the interface (or any other panic) gives nil, false.
+func keyOf(w keystorev3.WalletFile) (k []byte, ok bool) {
+	defer func() {
+		if r := recover(); r != nil {
+			k, ok = nil, false
+		}
+	}()
+	if w == nil {
+		return nil, false
+	}
+	return append([]byte{}, w.PrivateKey()...), true
+}
+
+func scribble(b []byte) {
+	for i := range b {
+		b[i] ^= 0xa5
+	}
 }
 
 func runImpl(doc, pw []byte, deadline time.Duration) implOut {
@@ -52,11 +77,22 @@ func runImpl(doc, pw []byte, deadline time.Duration) implOut {
 		}()
 		w, err := keystorev3.ReadWalletFile(d, p)
 		if err != nil {
-			ch <- implOut{Cls: clsErr, Msg: err.Error()}
+			o := implOut{Cls: clsErr, Msg: err.Error()}
+			if k, ok := keyOf(w); ok && len(k) > 0 {
+				o.ErrWithKey = k
+			}
+			ch <- o
 			return
 		}
 		// a nil wallet without an error would panic here, which is what a caller would experience
-		ch <- implOut{Cls: clsOk, Key: append([]byte{}, w.PrivateKey()...)}
+		o := implOut{Cls: clsOk, Key: append([]byte{}, w.PrivateKey()...), W: w}
+		// the caller reuses its buffers: the key it was handed must not move with them
+		scribble(d)
+		scribble(p)
+		if !bytes.Equal(o.Key, w.PrivateKey()) {
+			o.Aliased = true
+		}
+		ch <- o
 	}()
 	select {
 	case o := <-ch:
@@ -65,6 +101,21 @@ func runImpl(doc, pw []byte, deadline time.Duration) implOut {
 	case <-time.After(deadline):
 		return implOut{Cls: clsHang, Msg: fmt.Sprintf("no return within %s", deadline), Nanos: time.Since(t0).Nanoseconds()}
 	}
+}
+
+// runDirect: ReadWalletFile under recover() on the calling goroutine (no deadline; used on files that
+// have already returned quickly twice).
+func runDirect(doc, pw []byte) (o implOut) {
+	defer func() {
+		if r := recover(); r != nil {
+			o = implOut{Cls: clsPanic, Msg: fmt.Sprint(r)}
+		}
+	}()
+	w, err := keystorev3.ReadWalletFile(append([]byte{}, doc...), append([]byte{}, pw...))
+	if err != nil {
+		return implOut{Cls: clsErr, Msg: err.Error()}
+	}
+	return implOut{Cls: clsOk, Key: append([]byte{}, w.PrivateKey()...)}
 }
 
 type desc struct {
@@ -102,7 +153,14 @@ func judge(o implOut, ref refOut) (key, what string) {
 		return "C15/panic", "ReadWalletFile panicked (" + o.Msg + ")"
 	case clsHang:
 		return "C15/no-return", "ReadWalletFile did not return (" + o.Msg + ")"
+	case clsErr:
+		if len(o.ErrWithKey) > 0 {
+			return "C15/key-with-error", "ReadWalletFile reported an error and still handed out a wallet holding a key (" + hex.EncodeToString(o.ErrWithKey) + ")"
+		}
 	case clsOk:
+		if o.Aliased {
+			return "C15/key-aliases-input", "the key of the returned wallet changed when the caller overwrote the document / password buffers it had passed in"
+		}
 		if ref.Ok && string(ref.Key) == string(o.Key) {
 			return "", ""
 		}
@@ -118,6 +176,151 @@ func judge(o implOut, ref refOut) (key, what string) {
 		return "C15/foreign-key", "ReadWalletFile returned a key for a file from which the independent V3 reader derives none (" + strings.Join(ref.Aspects, ",") + "; MAC not valid)"
 	}
 	return "", ""
+}
+
+type ranCase struct {
+	c tcase
+	d desc
+	o implOut
+}
+
+func descMap(d desc, key, what string) map[string]interface{} {
+	d.Key, d.What = key, what
+	m := map[string]interface{}{}
+	b, _ := json.Marshal(d)
+	json.Unmarshal(b, &m)
+	return m
+}
+
+// secondPass re-runs every case (shuffled, 8 goroutines), compares class and key with the first run, and
+// finally compares the key of every retained wallet (both passes) with the copy taken when it was returned.
+func secondPass(ran []ranCase, r *cv.Rand, deadline time.Duration, st *cv.Stats, cur string) []map[string]interface{} {
+	order := make([]int, len(ran))
+	for i := range order {
+		order[i] = i
+	}
+	for i := len(order) - 1; i > 0; i-- {
+		j := r.Intn(i + 1)
+		order[i], order[j] = order[j], order[i]
+	}
+	second := make([]implOut, len(ran))
+	os.WriteFile(cur, []byte(`{"phase":"second pass (concurrent re-run of all cases)"}`), 0o644)
+	var wg sync.WaitGroup
+	jobs := make(chan int, len(order))
+	for _, i := range order {
+		jobs <- i
+	}
+	close(jobs)
+	for w := 0; w < 8; w++ {
+		wg.Add(1)
+		go func() {
+			defer wg.Done()
+			for i := range jobs {
+				second[i] = runImpl(ran[i].c.Doc, ran[i].c.Pw, deadline)
+			}
+		}()
+	}
+	wg.Wait()
+	var out []map[string]interface{}
+	for i, rc := range ran {
+		o2 := second[i]
+		st.Hit("second-pass:" + clsName(o2.Cls))
+		if o2.Cls != rc.o.Cls || !bytes.Equal(o2.Key, rc.o.Key) {
+			key := "C15/unstable-outcome"
+			what := fmt.Sprintf("the same document and password gave %s key=%x on the first call and %s key=%x (%s) when read again after other files had been read (concurrently, other order)",
+				clsName(rc.o.Cls), rc.o.Key, clsName(o2.Cls), o2.Key, o2.Msg)
+			if o2.Cls == clsPanic {
+				key = "C15/panic"
+			} else if o2.Cls == clsHang {
+				key = "C15/no-return"
+			}
+			out = append(out, descMap(rc.d, key, what))
+			continue
+		}
+		if o2.Aliased || len(o2.ErrWithKey) > 0 {
+			k, w := judge(o2, refOut{Ok: true, Key: o2.Key})
+			if k != "" {
+				out = append(out, descMap(rc.d, k, w+" (second pass)"))
+			}
+		}
+	}
+	// hammer: the cheapest accepted and MAC-rejected files, read back to back from 8 goroutines (a window of
+	// a few instructions in shared state needs many overlapping calls to show)
+	{
+		idx := make([]int, 0, len(ran))
+		for i, rc := range ran {
+			if rc.o.Cls == clsOk || (rc.o.Cls == clsErr && (rc.c.Family == "wrong-password" || rc.c.Family == "tamper")) {
+				idx = append(idx, i)
+			}
+		}
+		sort.SliceStable(idx, func(a, b int) bool { return ran[idx[a]].o.Nanos < ran[idx[b]].o.Nanos })
+		var pick []int
+		nOk, nErr := 0, 0
+		for _, i := range idx {
+			if ran[i].o.Cls == clsOk && nOk < 16 {
+				pick = append(pick, i)
+				nOk++
+			} else if ran[i].o.Cls == clsErr && nErr < 8 {
+				pick = append(pick, i)
+				nErr++
+			}
+		}
+		const perG = 2500
+		seeds := make([]uint64, 8)
+		for k := range seeds {
+			seeds[k] = r.U64() | 1
+		}
+		bad := make([]int, 8) // first case index that differed, per goroutine (-1 none)
+		badOut := make([]implOut, 8)
+		os.WriteFile(cur, []byte(`{"phase":"hammer (8 goroutines re-reading the cheapest files)"}`), 0o644)
+		var wg2 sync.WaitGroup
+		for k := 0; k < 8 && len(pick) > 0; k++ {
+			bad[k] = -1
+			wg2.Add(1)
+			go func(k int) {
+				defer wg2.Done()
+				x := seeds[k]
+				for n := 0; n < perG && bad[k] < 0; n++ {
+					x ^= x << 13
+					x ^= x >> 7
+					x ^= x << 17
+					i := pick[int(x%uint64(len(pick)))]
+					o := runDirect(ran[i].c.Doc, ran[i].c.Pw)
+					if o.Cls != ran[i].o.Cls || !bytes.Equal(o.Key, ran[i].o.Key) {
+						bad[k], badOut[k] = i, o
+					}
+				}
+			}(k)
+		}
+		wg2.Wait()
+		st.Hit(fmt.Sprintf("hammer:%d files x 8 goroutines x %d reads", len(pick), perG))
+		for k := range bad {
+			if len(pick) > 0 && bad[k] >= 0 {
+				rc, o2 := ran[bad[k]], badOut[k]
+				key := "C15/unstable-outcome"
+				if o2.Cls == clsPanic {
+					key = "C15/panic"
+				}
+				out = append(out, descMap(rc.d, key, fmt.Sprintf("read concurrently from 8 goroutines, the same document and password gave %s key=%x (%s) instead of %s key=%x",
+					clsName(o2.Cls), o2.Key, o2.Msg, clsName(rc.o.Cls), rc.o.Key)))
+			}
+		}
+	}
+	// retained wallets: the key handed out must still be the key
+	for i, rc := range ran {
+		for pass, o := range []implOut{rc.o, second[i]} {
+			if o.Cls != clsOk || o.W == nil {
+				continue
+			}
+			st.Hit("retained-wallet-rechecked")
+			k, ok := keyOf(o.W)
+			if !ok || !bytes.Equal(k, o.Key) {
+				out = append(out, descMap(rc.d, "C15/retained-key-changed",
+					fmt.Sprintf("the wallet returned for this file (pass %d) held key %x when it was returned and holds %x after %d further reads", pass+1, o.Key, k, 2*len(ran))))
+			}
+		}
+	}
+	return out
 }
 
 func limitAddressSpace() {
@@ -168,6 +371,7 @@ func main() {
 		em = newEmitter(*out, 1)
 	}
 	seen := map[[32]byte]bool{}
+	var ran []ranCase
 	var failures []interface{}
 	failKeys := map[string]int{}
 	var slowest int64
@@ -246,10 +450,24 @@ func main() {
 		if len(st.Samples) < 12 && (i%97 == 0 || key != "") {
 			st.Samples = append(st.Samples, map[string]interface{}{"family": d.Family, "name": d.Name, "doc": trunc(string(c.Doc)), "impl": d.Impl, "ref": d.Ref, "malformed": d.Aspects, "mac_valid": d.MacValid})
 		}
+		ran = append(ran, ranCase{c: c, d: d, o: o})
 		if o.Cls == clsHang {
 			// the stuck call keeps a core and possibly gigabytes busy: stop here, the finding is recorded
 			stopped = fmt.Sprintf("stopped after case %d (%s: %s) did not return within %s", i, c.Family, c.Name, deadline)
 			break
+		}
+	}
+	// ---- round 3: the outcome is a function of (document, password) alone -------------------------------
+	// Every case is run again, in another order and from several goroutines at once, after all the other
+	// documents (valid ones, wrong passwords, damaged files) have gone through the package; then every
+	// wallet handed out so far is asked for its key once more.
+	if stopped == "" && *replay == "" {
+		for _, f := range secondPass(ran, g.r, deadline, st, filepath.Join(*out, "current_case.json")) {
+			k := f["key"].(string)
+			failKeys[k]++
+			if failKeys[k] <= 4 {
+				failures = append(failures, f)
+			}
 		}
 	}
 	os.Remove(filepath.Join(*out, "current_case.json"))
